@@ -378,7 +378,7 @@ def rule_presence_truth(ctx: RuleContext, p: Program, rid: str, minimum: int = 6
                     continue
                 if t is None or not t.optional or not t.classes:
                     continue
-                if (site_key := f'{fn.qualname}: {norm(e)}') in EXEMPT:
+                if (site_key := f'{fn.qualname}: {norm(e.value if isinstance(e, ast.NamedExpr) else e)}') in EXEMPT:
                     ctx.ok(rid, f'{m.name.split(".", 1)[-1]}:{site_key}', 'exempt: ' + EXEMPT[site_key], nontrivial=False)
                     continue
                 n_typed += 1
